@@ -739,6 +739,7 @@ coap_path_into_optlist(const uint8_t *s, size_t length, coap_option_num_t optnum
   const uint8_t *p = s;
   coap_optlist_t *optlist;
   int num_dots;
+  size_t seglen;
   coap_optlist_t **optlist_start;
 
   /* Only options added by this call may be backed up */
@@ -761,6 +762,8 @@ coap_path_into_optlist(const uint8_t *s, size_t length, coap_option_num_t optnum
       case 0:
       default:
         /* add segment */
+        if (check_segment(p, s - p, &seglen) < 0)
+          return 0;
         optlist = coap_new_optlist(optnum, s - p, p);
         coap_replace_percents(optlist);
         if (!coap_insert_optlist(optlist_chain, optlist)) {
@@ -787,6 +790,8 @@ coap_path_into_optlist(const uint8_t *s, size_t length, coap_option_num_t optnum
   case 0:
   default:
     /* add segment */
+    if (check_segment(p, s - p, &seglen) < 0)
+      return 0;
     optlist = coap_new_optlist(optnum, s - p, p);
     coap_replace_percents(optlist);
     if (!coap_insert_optlist(optlist_chain, optlist)) {
@@ -826,10 +831,13 @@ coap_query_into_optlist(const uint8_t *s, size_t length, coap_option_num_t optnu
                         coap_optlist_t **optlist_chain) {
   const uint8_t *p = s;
   coap_optlist_t *optlist;
+  size_t seglen;
 
   while (length > 0 && *s != '#') {
     if (*s == '&') {                /* start of new query element */
       /* add previous query element */
+      if (check_segment(p, s - p, &seglen) < 0)
+        return 0;
       optlist = coap_new_optlist(optnum, s - p, p);
       coap_replace_percents(optlist);
       if (!coap_insert_optlist(optlist_chain, optlist)) {
@@ -841,6 +849,8 @@ coap_query_into_optlist(const uint8_t *s, size_t length, coap_option_num_t optnu
     length--;
   }
   /* add last query element */
+  if (check_segment(p, s - p, &seglen) < 0)
+    return 0;
   optlist = coap_new_optlist(optnum, s - p, p);
   coap_replace_percents(optlist);
   if (!coap_insert_optlist(optlist_chain, optlist)) {
